@@ -11,7 +11,8 @@
                                                        recursion never returns (stack overflow): Diverges
    Resolver<usize> / <i64> / <LiteralValue> /        resolve_usize / resolve_i64 / resolve_literal / resolve_type
      <Type<Unresolved>>
-   `value as usize` (i64 -> usize)                   Z.modulo v 2^64
+   usize::try_from(value) (i64 -> usize; repair       error FailedToParseLiteral for a negative value
+     fb434d2 of /repo, was `value as usize`)
    Size::reconsider_constraints                      reconsider_constraints
    Asn::try_resolve (enumerated-default special      resolve_default
      case)
@@ -88,14 +89,14 @@ Section Scope.
 
   Definition name_prefix : str := [110; 97; 109; 101; 58; 32].     (* "name: " *)
 
-  Definition U64_MOD : Z := 18446744073709551616%Z.
-
   Definition resolve_usize (lor : lit_or_ref N) : rres N :=
     match lor with
     | Lit n => ROk n
     | Ref name =>
         match value_reference lookup_fuel model name with
-        | Found (LInteger v) => ROk (Z.to_N (Z.modulo v U64_MOD))          (* value as usize *)
+        | Found (LInteger v) =>
+            (* repair fb434d2: usize::try_from(value) -- an i64 is below 2^64, so only the sign can fail *)
+            if (v <? 0)%Z then RErr (FailedToParseLiteral (name_prefix ++ name)) else ROk (Z.to_N v)
         | Found _ => RErr (FailedToParseLiteral (name_prefix ++ name))
         | NotFound => RErr (FailedToResolveReference name)
         | Diverges => RDiverge
